@@ -5,28 +5,56 @@ Every coordinate-ordered word (all orders among equal coordinates) of fragment l
 full product of UMI Hamming distance x radius x fragment cap x pooling.  Then write_tags() on every
 molecule: duplicate flags, RC/af/TF; every input duplicate-flag pattern; and a second pass over the
 tagged reads (re-tagging is idempotent).
+
+Extension space (audit): per class a second alphabet = 3 core letters + letters for dimensions the base alphabet lacks
+(second contig, single-end copies on both strands, rejected fragments: no CATG / qcfail input / R2 without R1, UMI of
+another length, rS random-primer tag, a site at radius+1 (and one exactly at the radius), an R2-only fragment next to a
+forward fragment starting at the same coordinate, allele tags with use_allele_tag) - all words with >=1 new letter,
+x distance x cap {None,1} x pooling x yield_invalid {off,on} (words with a rejected fragment), all duplicate-flag
+patterns, second pass.  Tags are read from EVERY record (both mates).  A deep same-site slice (one key, 4 UMIs, all
+sequences of 4 / 5 fragments) exercises the moving representative UMI.
 """
 import itertools
 
-from gen.frags import nla_reads, chic_reads, delivery_coordinate
+from gen.frags import nla_reads, chic_reads
 
 ID = 'C06'
 RULE = ('all multisets of <=n letters (molecule key x UMI x variant) in delivery order with all tie orders x class '
         '{nla, chic r=0, chic r=2, plain} x umi_hamming_distance {0,1,2} x max_associated_fragments {None,1,2} x pooling {0,1}; '
         'all 2^n input duplicate-flag patterns in the default configuration; second tagging pass on the tagged reads; '
         'non-trivial = word with >=2 fragments of one true molecule plus >=1 fragment of another; '
-        'states = (word, configuration) pairs, transitions = fragments pushed')
+        'states = (word, configuration) pairs, transitions = fragments pushed; '
+        'EXTENSION: per class {nla, chic0, chic2, plain, nla+use_allele_tag} all multisets of <=n letters over (core + class-specific new letters) '
+        'with >=1 new letter x distance {0,1,2} x cap {None,1} x pooling {0,1} x yield_invalid {0,1} (only words holding a rejected fragment), '
+        'all duplicate-flag patterns in the default configuration where a flagged fragment also carries the RC/af/TF tags of the earlier run, second pass; non-trivial = >=2 fragments; '
+        'DEEP: all sequences of exactly m fragments of one (cell, site, strand) over 4 UMIs x 4 classes x distance {1,2} x pooling {0,1}, '
+        'non-trivial = the representative UMI of a molecule differs from the UMI of its first fragment')
 ASSUMPTIONS = [
     'exactness (partition == classes of identical cell/site/strand/UMI) is demanded for distance 0, no fragment cap, site-exact classes (nla, chic r=0)',
     'soundness for radius>0 / distance>0 is connectivity of the site graph (edges <= radius) and of the UMI graph (edges <= distance)',
     'for the plain Fragment class only cell, strand and UMI linkage are judged (it has no cut site)',
     'an N in a UMI is an uncalled base and is not counted as a mismatch when distance > 0; with distance 0 UMIs must be identical strings',
     'overflow fragments (beyond max_associated_fragments) are emitted as their own molecules, as the iterator documents',
+    'a cut site is (contig, coordinate): sites on different contigs are never within any radius',
+    'UMIs of different lengths: the distance is mismatches over the common prefix + the length difference (lenient); the completeness clause is not applied to them',
+    'rejected fragments (no CATG for NlaIII, qcfail input reads, no R1 for NlaIII/CHIC) are not part of the partition: they must never share a molecule '
+    'with another fragment and must not change the partition of the valid ones; with yield_invalid=True each is emitted exactly once as a molecule of size 1 '
+    '(documented), whose flags/tags obey the same clauses; with yield_invalid=False nothing is demanded about them except at-most-once',
+    'with use_allele_tag=True the allele tag (DA) is part of the molecule key: fragments tagged with different alleles never merge and, '
+    'for distance 0, the molecules are exactly the classes of (cell, site, strand, UMI, allele); whether an untagged fragment may join a tagged one is left open '
+    '(no exactness clause for words where one (cell, site, strand, UMI) class holds both)',
+    'a single-end copy (R1 only) has the cell, site, strand and UMI of its molecule; an R2-only fragment is valid only for the plain class, '
+    'where its strand is the strand of its molecule (the opposite of the R2 alignment)',
+    'af / TF / RC and the duplicate flag are demanded on every record (both mates carry the same values)',
 ]
 
 SITE = 5040    # chosen so that the R2 ends of the reverse-strand copies (4999 / 5004) straddle a round coordinate
 # key -> (cell, site offset, reverse)
-KEYS = {'K0': (1, 0, False), 'K1': (1, 0, True), 'K2': (2, 0, False), 'K3': (1, 1, False), 'K4': (1, 3000, False)}
+KEYS = {'K0': (1, 0, False), 'K1': (1, 0, True), 'K2': (2, 0, False), 'K3': (1, 1, False), 'K4': (1, 3000, False),
+        # extension keys: K5 = the coordinates of K0 on the second contig; K6 = radius+1 away from K0 and exactly the radius (2)
+        # away from K3; K7 = forward fragment whose first base is the first base of the R2 of a K1 (reverse) copy
+        'K5': (1, 0, False), 'K6': (1, 3, False), 'K7': (1, -36, False)}
+KEY_CONTIG = {'K5': 'chr2'}
 # letter = (key, umi, variant)
 LETTERS = [
     ('K0', 'AAA', 'base'), ('K0', 'AAC', 'base'), ('K0', 'ACC', 'base'), ('K0', 'NAA', 'base'),
@@ -37,38 +65,116 @@ LETTERS = [
     ('K4', 'AAA', 'base'),
 ]
 CLASSES = ['nla', 'chic0', 'chic2', 'plain']
+# ---- extension alphabet (indices continue after the base letters)
+EXT_LETTERS = [
+    ('K5', 'AAA', 'base'),       # 17 same coordinates, other contig
+    ('K0', 'AAA', 'single'),     # 18 single-end copy (R1 only), forward
+    ('K1', 'AAA', 'single'),     # 19 single-end copy, reverse
+    ('K0', 'AAA', 'invalid'),    # 20 rejected: no CATG (nla) / qcfail input reads (chic, plain)
+    ('K1', 'AAA', 'r2only'),     # 21 R2 without R1: rejected by nla / chic, a valid reverse-strand fragment for plain
+    ('K0', 'CA', 'base'),        # 22 UMI of another length (mismatch inside the common prefix)
+    ('K0', 'AAA', 'rs'),         # 23 random primer given by the rS tag (with an N)
+    ('K6', 'AAA', 'base'),       # 24 site at radius+1 of K0, exactly at the radius of K3
+    ('K7', 'AAA', 'base'),       # 25 forward fragment starting where the R2 of letter 21 starts
+    ('K0', 'AAA', 'da_a'),       # 26 allele tag a
+    ('K0', 'AAA', 'da_b'),       # 27 allele tag b
+]
+ALL = LETTERS + EXT_LETTERS
+NB = len(LETTERS)
+CORE = [0, 1, 8]
+# class -> (letters already covered by the base space, new letters)
+EXT = {
+    'nla': (CORE, [17, 18, 19, 20, 21, 22, 23]),
+    'chic0': (CORE, [17, 18, 19, 20, 21, 22]),
+    'chic2': (CORE + [14], [24, 17, 18]),
+    'plain': (CORE, [17, 18, 19, 20, 21, 25]),
+    'nla_al': ([], CORE + [26, 27]),
+}
+DEEP = [0, 1, 2, 3]     # K0 x {AAA, AAC, ACC, NAA}: one delivery coordinate, every sequence is a legal order
 
 
 def bounds(tier):
     return {'max_fragments': 3 if tier == 'quick' else 4, 'letters': LETTERS, 'classes': CLASSES, 'umi_hamming_distance': [0, 1, 2],
             'max_associated_fragments': [None, 1, 2], 'pooling': [0, 1],
-            'configs_for_longest_words': 'full product' if tier == 'quick' else 'configurations within distance 1 of (d=1, cap None, pooling 1) for n=4'}
+            'configs_for_longest_words': 'full product' if tier == 'quick' else 'configurations within distance 1 of (d=1, cap None, pooling 1) for n=4',
+            'extension': {'letters': {str(NB + i): list(l) for i, l in enumerate(EXT_LETTERS)},
+                          'alphabet_per_class(core,new)': {k: [list(v[0]), list(v[1])] for k, v in EXT.items()},
+                          'max_fragments': 3 if tier == 'quick' else 4, 'umi_hamming_distance': [0, 1, 2], 'max_associated_fragments': [None, 1],
+                          'pooling': [0, 1], 'yield_invalid': [False, True], 'assignment_radius(chic)': [0, 2], 'use_allele_tag(nla_al)': True,
+                          'duplicate_flag_patterns': 'all 2^n - 1 in (d=1, cap None, pooling 1); flagged fragments carry stale tags ' + repr(STALE_TAGS)},
+            'deep_same_site': {'letters': DEEP, 'fragments': 4 if tier == 'quick' else 5, 'umi_hamming_distance': [1, 2], 'pooling': [0, 1],
+                               'classes': CLASSES}}
 
 
-def make(li, i, cls, dupflag=False):
-    key, umi, variant = LETTERS[li]
+def _break_motif(r1):
+    """the read does not start with CATG any more (read orientation): C A T G -> C T T G"""
+    q = r1.query_qualities
+    s = r1.query_sequence
+    if r1.is_reverse:
+        s = s[:-3] + 'A' + s[-2:]     # ...CATG in BAM orientation is the reverse complement of the read start
+    else:
+        s = s[:1] + 'T' + s[2:]
+    r1.query_sequence = s
+    r1.query_qualities = q
+
+
+STALE_TAGS = {'RC': 5, 'af': 6, 'TF': 6}     # what an earlier run wrote on the 6th fragment of a molecule of six
+
+
+def make(li, i, cls, dupflag=False, stale=False):
+    key, umi, variant = ALL[li]
     cell, off, rev = KEYS[key]
+    contig = KEY_CONTIG.get(key, 'chr1')
     length = 40
     kw = {}
     if variant == 'r2shift':
         kw['r2_end_shift'] = 5
-    if cls in ('nla', 'plain'):
+    if variant == 'single':
+        length = 20          # = read length: the generators then build R1 only
+    if variant == 'rs':
+        kw['extra_tags'] = {'rS': 'ACNTAC'}
+    if variant in ('da_a', 'da_b'):
+        kw['extra_tags'] = {'DA': variant[-1]}
+    if cls in ('nla', 'plain', 'nla_al'):
         if variant == 'clip':
             kw['clip'] = 3
         if variant == 'error':
             kw['error'] = True
-        return nla_reads(f'f{i}', 'chr1', SITE + off, length, cell, umi, reverse=rev, duplicate_flag=dupflag, **kw)
-    if variant == 'clip':
-        kw['clip'] = 3
-    return chic_reads(f'f{i}', 'chr1', SITE + off, length, cell, umi, reverse=rev, duplicate_flag=dupflag, **kw)
+        reads = nla_reads(f'f{i}', contig, SITE + off, length, cell, umi, reverse=rev, duplicate_flag=dupflag, **kw)
+    else:
+        if variant == 'clip':
+            kw['clip'] = 3
+        reads = chic_reads(f'f{i}', contig, SITE + off, length, cell, umi, reverse=rev, duplicate_flag=dupflag, **kw)
+    if variant == 'invalid':
+        if cls in ('nla', 'nla_al'):
+            _break_motif(reads[0])
+        else:
+            for r in reads:
+                if r is not None:
+                    r.is_qcfail = True
+    if variant == 'r2only':
+        reads = [None, reads[1]]
+    if stale and dupflag:
+        for r in reads:
+            if r is not None:
+                for k, v in STALE_TAGS.items():
+                    r.set_tag(k, v)
+    return reads
+
+
+def is_rejected(li, cls):
+    variant = ALL[li][2]
+    return variant == 'invalid' or (variant == 'r2only' and cls != 'plain')
 
 
 _DELIV = {}
 
 
 def deliv(li):
+    """(contig index, position) at which a coordinate-sorted reader has seen all mates of the fragment"""
     if li not in _DELIV:
-        _DELIV[li] = delivery_coordinate(make(li, 0, 'nla'))
+        rs = [r for r in make(li, 0, 'nla') if r is not None]
+        _DELIV[li] = (rs[0].reference_id, max(r.reference_start for r in rs))
     return _DELIV[li]
 
 
@@ -86,6 +192,8 @@ def classes_of(cls):
     from singlecellmultiomics.fragment import NlaIIIFragment, CHICFragment, Fragment
     if cls == 'nla':
         return NlaIIIMolecule, NlaIIIFragment, {}
+    if cls == 'nla_al':
+        return NlaIIIMolecule, NlaIIIFragment, {'use_allele_tag': True}
     if cls == 'chic0':
         return CHICMolecule, CHICFragment, {'assignment_radius': 0}
     if cls == 'chic2':
@@ -96,6 +204,13 @@ def classes_of(cls):
 def hamming(a, b):
     # an N is an uncalled base: it is not counted as a mismatch (lenient reading, the property does not say)
     return sum(x != y and x != 'N' and y != 'N' for x, y in zip(a, b)) + abs(len(a) - len(b))
+
+
+def site_distance(a, b):
+    """sites are (contig, offset)"""
+    if a[0] != b[0]:
+        return float('inf')
+    return abs(a[1] - b[1])
 
 
 def connected(items, edge):
@@ -113,7 +228,7 @@ def connected(items, edge):
     return len(seen) == len(items)
 
 
-def iterate(reads, cls, d, cap, pooling):
+def iterate(reads, cls, d, cap, pooling, yield_invalid=False):
     from singlecellmultiomics.molecule import MoleculeIterator
     mc, fc, fargs = classes_of(cls)
     fargs = dict(fargs)
@@ -122,7 +237,7 @@ def iterate(reads, cls, d, cap, pooling):
     if cap is not None:
         margs['max_associated_fragments'] = cap
     it = MoleculeIterator(reads, molecule_class=mc, fragment_class=fc, check_eject_every=None, pooling_method=pooling,
-                          molecule_class_args=margs, fragment_class_args=fargs, perform_qflag=False)
+                          molecule_class_args=margs, fragment_class_args=fargs, perform_qflag=False, yield_invalid=yield_invalid)
     return list(it)
 
 
@@ -132,59 +247,96 @@ def snapshot(reads):
         for r in pair:
             if r is None:
                 continue
-            tags = {k: v for k, v in r.get_tags() if k not in ('mi',)}
-            out[(r.query_name, r.is_read2)] = (r.is_duplicate, r.is_qcfail, tuple(sorted((k, repr(v)) for k, v in tags.items())))
+            # (tag, value, BAM value type) triples as a set: exact comparison, independent of the order of the tags in the record
+            out[(r.query_name, r.is_read2)] = (r.is_duplicate, r.is_qcfail,
+                                               frozenset(t for t in r.get_tags(with_value_type=True) if t[0] != 'mi'))
     return out
 
 
-def check_word(word, cls, d, cap, pooling, dup_pattern=0, second_pass=False):
+def check_word(word, cls, d, cap, pooling, dup_pattern=0, second_pass=False, yield_invalid=False, stale=False):
     """returns (violations, info)"""
     n = len(word)
-    reads = [make(li, i, cls, dupflag=bool((dup_pattern >> i) & 1)) for i, li in enumerate(word)]
+    reads = [make(li, i, cls, dupflag=bool((dup_pattern >> i) & 1), stale=stale) for i, li in enumerate(word)]
     viol = {}
     pre = f'{cls}'
     try:
-        mols = iterate(reads, cls, d, cap, pooling)
+        mols = iterate(reads, cls, d, cap, pooling, yield_invalid)
     except Exception as ex:
         return [(f'{pre}:iterator:exception:{type(ex).__name__}', repr(ex))], {}
     truth = {}
+    rejected = set()
     for i, li in enumerate(word):
-        key, umi, variant = LETTERS[li]
+        key, umi, variant = ALL[li]
         cell, off, rev = KEYS[key]
-        truth[f'f{i}'] = (cell, off, rev, umi)
-    part = []
+        if is_rejected(li, cls):
+            rejected.add(f'f{i}')
+            continue
+        allele = None
+        if cls == 'nla_al':
+            allele = variant[-1] if variant in ('da_a', 'da_b') else 'untagged'
+        truth[f'f{i}'] = (cell, (KEY_CONTIG.get(key, 'chr1'), off), rev, umi, allele)
+    part_all = []
     for m in mols:
         names = sorted({r.query_name for r in m.iter_reads()})
-        part.append(names)
+        part_all.append(names)
+    # ---- rejected fragments: never together with another fragment, at most once, exactly once when they are to be yielded
+    part = []
+    for g in part_all:
+        if any(x in rejected for x in g):
+            if len(g) > 1:
+                viol[f'{pre}:rejected-fragment-shares-a-molecule'] = {'group': g, 'rejected': sorted(rejected)}
+        else:
+            part.append(g)
+    if rejected:
+        emitted = [x for g in part_all for x in g if x in rejected]
+        if len(emitted) != len(set(emitted)):
+            viol[f'{pre}:rejected-fragment-emitted-twice'] = {'partition': part_all}
+        if yield_invalid and set(emitted) != rejected:
+            viol[f'{pre}:yield_invalid:rejected-fragment-not-emitted'] = {'partition': part_all, 'rejected': sorted(rejected)}
     flat = [x for g in part for x in g]
     if sorted(flat) != sorted(truth):
-        viol[f'{pre}:fragment-lost-or-emitted-twice'] = {'partition': part}
-    radius = {'nla': 0, 'chic0': 0, 'chic2': 2, 'plain': 0}[cls]
+        viol[f'{pre}:fragment-lost-or-emitted-twice'] = {'partition': part_all}
+    radius = {'nla': 0, 'nla_al': 0, 'chic0': 0, 'chic2': 2, 'plain': 0}[cls]
+    exact_cls = cls in ('nla', 'chic0', 'nla_al')
+    if cls == 'nla_al':
+        # whether a fragment WITHOUT an allele tag may join the molecule of a tagged one is left open: exactness is only judged
+        # when no (cell, site, strand, UMI) class holds tagged and untagged fragments together
+        seen = {}
+        for t in truth.values():
+            seen.setdefault(t[:4], set()).add(t[4] == 'untagged')
+        if any(len(v) > 1 for v in seen.values()):
+            exact_cls = False
     for g in part:
-        ts = [truth[x] for x in g]
+        ts = [truth[x] for x in g if x in truth]
         if len({t[0] for t in ts}) > 1:
             viol[f'{pre}:molecule-mixes-cells'] = {'group': g}
         if len({t[2] for t in ts}) > 1:
             viol[f'{pre}:molecule-mixes-strands'] = {'group': g}
-        if cls != 'plain' and not connected(ts, lambda a, b: abs(a[1] - b[1]) <= radius):
+        if cls != 'plain' and not connected(ts, lambda a, b: site_distance(a[1], b[1]) <= radius):
             viol[f'{pre}:molecule-mixes-sites-beyond-radius'] = {'group': g, 'radius': radius}
+        if cls == 'plain' and len({t[1][0] for t in ts}) > 1:
+            viol[f'{pre}:molecule-mixes-contigs'] = {'group': g}
         if not connected(ts, lambda a, b: hamming(a[3], b[3]) <= d):
             viol[f'{pre}:molecule-links-umis-beyond-distance'] = {'group': g, 'd': d}
-    if d == 0 and cap is None and cls in ('nla', 'chic0'):
+        if len({t[4] for t in ts if t[4] != 'untagged'}) > 1:
+            viol[f'{pre}:molecule-mixes-alleles'] = {'group': g}
+    if d == 0 and cap is None and exact_cls:
         want = {}
         for name, t in truth.items():
             want.setdefault(t, []).append(name)
         want_part = sorted(sorted(v) for v in want.values())
         if sorted(part) != want_part:
-            merged = any(len({truth[x] for x in g}) > 1 for g in part)
+            merged = any(len({truth[x] for x in g if x in truth}) > 1 for g in part)
             viol[f'{pre}:d0:' + ('distinct-molecules-merged' if merged else 'one-molecule-split')] = {
                 'got': sorted(part), 'want': want_part}
-    if d == 0 and cap is not None and cls in ('nla', 'chic0'):
+    if d == 0 and cap is not None and exact_cls:
         # documented behaviour of the cap: a molecule takes at most `cap` fragments, every further fragment of that
         # molecule is emitted as its own (overflow) molecule - and fragments of OTHER molecules are not affected
         want = {}
         order = []
         for i in range(n):
+            if f'f{i}' not in truth:
+                continue
             t = truth[f'f{i}']
             if t not in want:
                 want[t] = []
@@ -200,33 +352,33 @@ def check_word(word, cls, d, cap, pooling, dup_pattern=0, second_pass=False):
             viol[f'{pre}:d0:capped:partition-differs-from-first-cap-fragments-plus-singletons'] = {
                 'got': sorted(part), 'want': sorted(want_part), 'cap': cap}
     # completeness for PCR/sequencing errors in the UMI: fragments of one (cell, site, strand) whose UMIs are ALL pairwise
-    # within the allowed distance (no N involved) form one molecule, whatever representative the greedy assignment uses
-    if cap is None and cls in ('nla', 'chic0') and d > 0:
+    # within the allowed distance (no N involved, one length) form one molecule, whatever representative the greedy assignment uses
+    if cap is None and exact_cls and d > 0:
         bykey = {}
         for name, t in truth.items():
-            bykey.setdefault(t[:3], []).append(name)
+            bykey.setdefault((t[0], t[1], t[2], t[4]), []).append(name)
         where = {x: gi for gi, g in enumerate(part) for x in g}
         for key, names in bykey.items():
             umis = [truth[x][3] for x in names]
-            if any('N' in u for u in umis):
+            if any('N' in u for u in umis) or len({len(u) for u in umis}) > 1:
                 continue
             if all(hamming(a, b) <= d for a in umis for b in umis) and len({where.get(x) for x in names}) > 1:
                 viol[f'{pre}:fragments-with-all-umis-within-distance-split'] = {'names': names, 'umis': umis, 'd': d, 'partition': part}
     if cls == 'plain' and cap is None and d == 0:
         # (distance 0 only: with a distance > 0 first-match assignment can put a copy into the molecule of a neighbouring UMI)
         # plain fragments have no cut site; copies of one molecule that share their R1 anchor exactly (same key and UMI,
-        # unclipped: variants base / other R2 end / sequencing error) match through that coordinate whatever else the
+        # unclipped: variants base / other R2 end / sequencing error / single-end) match through that coordinate whatever else the
         # molecule already holds, so they can never be split
         where = {x: gi for gi, g in enumerate(part) for x in g}
         anchors = {}
         for i, li in enumerate(word):
-            key, umi, variant = LETTERS[li]
-            if variant in ('base', 'r2shift', 'error'):
+            key, umi, variant = ALL[li]
+            if variant in ('base', 'r2shift', 'error', 'single'):
                 anchors.setdefault((key, umi), []).append(f'f{i}')
-        clipped_keys = {LETTERS[li][0] for li in word if LETTERS[li][2] == 'clip'}
+        clipped_keys = {ALL[li][0] for li in word if ALL[li][2] in ('clip', 'r2only')}
         for k, names in anchors.items():
             if k[0] in clipped_keys:
-                continue      # a clipped copy matches through the OTHER coordinate; first-match assignment may then split (by design)
+                continue      # a clipped (or R2-only) copy matches through the OTHER coordinate; first-match assignment may then split (by design)
             if len({where.get(x) for x in names}) > 1:
                 viol[f'{pre}:copies-sharing-their-anchor-coordinate-split'] = {'key': k, 'names': names, 'partition': part}
     # ---- tags and flags
@@ -237,10 +389,15 @@ def check_word(word, cls, d, cap, pooling, dup_pattern=0, second_pass=False):
         viol[f'{pre}:write_tags:exception:{type(ex).__name__}'] = repr(ex)
         return [(s, x) for s, x in viol.items()], {}
     inflag = 'flagged-input' if dup_pattern else 'clean-input'
+    rep_changed = False
     for m in mols:
         frs = list(m)
         nd = 0
         ranks = []
+        names_m = sorted({r.query_name for r in m.iter_reads()})
+        is_rejected_mol = any(x in rejected for x in names_m)
+        if frs and m.umi != frs[0].umi:
+            rep_changed = True
         for f in frs:
             rs = [r for r in f if r is not None]
             dups = {r.is_duplicate for r in rs}
@@ -248,33 +405,41 @@ def check_word(word, cls, d, cap, pooling, dup_pattern=0, second_pass=False):
                 viol[f'{pre}:mates-disagree-on-duplicate-flag'] = {}
             if not any(dups):
                 nd += 1
+            rcs = {(r.get_tag('RC') if r.has_tag('RC') else None) for r in rs}
+            if len(rcs) > 1:
+                viol[f'{pre}:mates-disagree-on-RC'] = {'RC': sorted(rcs, key=repr)}
             ranks.append(rs[0].get_tag('RC') if rs[0].has_tag('RC') else None)
-            af = rs[0].get_tag('af') if rs[0].has_tag('af') else None
-            tf = rs[0].get_tag('TF') if rs[0].has_tag('TF') else None
-            if af != len(frs):
-                viol[f'{pre}:af-differs-from-molecule-size'] = {'af': af, 'n': len(frs)}
-            if tf is None or tf < len(frs) or (cap is None and tf != len(frs)):
-                viol[f'{pre}:TF-inconsistent-with-molecule-size'] = {'TF': tf, 'n': len(frs), 'cap': cap}
-            elif cap is not None and d == 0 and cls in ('nla', 'chic0'):
-                # total fragments of a capped molecule = fragments it holds + fragments it refused = size of the true class;
-                # an overflow singleton counts only itself
-                names_m = sorted({r.query_name for r in m.iter_reads()})
-                true_n = sum(1 for x in truth if truth[x] == truth[names_m[0]])
-                first_of_class = min(int(x[1:]) for x in truth if truth[x] == truth[names_m[0]])
-                is_main = any(int(x[1:]) == first_of_class for x in names_m)
-                want_tf = true_n if is_main else len(frs)
-                if tf != want_tf:
-                    viol[f'{pre}:d0:capped:TF-differs-from-true-fragment-count'] = {'TF': tf, 'want': want_tf, 'molecule': names_m, 'cap': cap}
+            for r in rs:      # every record carries the counts
+                af = r.get_tag('af') if r.has_tag('af') else None
+                tf = r.get_tag('TF') if r.has_tag('TF') else None
+                if af != len(frs):
+                    viol[f'{pre}:af-differs-from-molecule-size'] = {'af': af, 'n': len(frs), 'read2': r.is_read2}
+                if tf is None or tf < len(frs) or (cap is None and tf != len(frs)):
+                    viol[f'{pre}:TF-inconsistent-with-molecule-size'] = {'TF': tf, 'n': len(frs), 'cap': cap, 'read2': r.is_read2}
+                elif is_rejected_mol:
+                    if tf != len(frs):     # a rejected fragment is never offered to a molecule, so nothing overflowed into it
+                        viol[f'{pre}:rejected-fragment:TF-differs-from-molecule-size'] = {'TF': tf, 'n': len(frs)}
+                elif cap is not None and d == 0 and exact_cls:
+                    # total fragments of a capped molecule = fragments it holds + fragments it refused = size of the true class;
+                    # an overflow singleton counts only itself
+                    if names_m[0] not in truth:
+                        continue
+                    true_n = sum(1 for x in truth if truth[x] == truth[names_m[0]])
+                    first_of_class = min(int(x[1:]) for x in truth if truth[x] == truth[names_m[0]])
+                    is_main = any(int(x[1:]) == first_of_class for x in names_m)
+                    want_tf = true_n if is_main else len(frs)
+                    if tf != want_tf:
+                        viol[f'{pre}:d0:capped:TF-differs-from-true-fragment-count'] = {'TF': tf, 'want': want_tf, 'molecule': names_m, 'cap': cap}
         if nd != 1:
             viol[f'{pre}:{inflag}:molecule-with-{"no" if nd == 0 else "several"}-non-duplicate-fragments'] = {
                 'fragments': len(frs), 'non_duplicate': nd, 'dup_pattern': dup_pattern}
         if sorted(x for x in ranks if x is not None) != list(range(len(frs))) or None in ranks:
             viol[f'{pre}:RC-not-a-ranking-of-the-fragments'] = {'ranks': ranks}
-    info = {'molecules': len(mols)}
+    info = {'molecules': len(mols), 'rep_changed': rep_changed, 'rejected': len(rejected)}
     if second_pass and not viol:
         snap1 = snapshot(reads)
         try:
-            mols2 = iterate(reads, cls, d, cap, pooling)
+            mols2 = iterate(reads, cls, d, cap, pooling, yield_invalid)
             for m in mols2:
                 m.write_tags()
         except Exception as ex:
@@ -282,7 +447,8 @@ def check_word(word, cls, d, cap, pooling, dup_pattern=0, second_pass=False):
             return [(s, x) for s, x in viol.items()], info
         snap2 = snapshot(reads)
         if snap1 != snap2:
-            diff = [(k, snap1[k], snap2[k]) for k in snap1 if snap1[k] != snap2.get(k)][:2]
+            diff = [(k, snap1[k][:2] + (sorted(snap1[k][2], key=repr),), snap2[k][:2] + (sorted(snap2[k][2], key=repr),))
+                    for k in snap1 if snap1[k] != snap2.get(k)][:2]
             what = 'flags' if any(a[:2] != b[:2] for _, a, b in diff) else 'tags'
             viol[f'{pre}:retagging-changes-{what}'] = {'diff': diff}
     return [(s, x) for s, x in viol.items()], info
@@ -301,25 +467,100 @@ def configs(tier, n):
     return out
 
 
+def ext_multisets(cls, n):
+    old, new = EXT[cls]
+    letters = sorted(set(old) | set(new))
+    for k in range(1, n + 1):
+        for ms in itertools.combinations_with_replacement(letters, k):
+            if any(li in new for li in ms):
+                yield ms
+
+
 def shards(tier):
     n = bounds(tier)['max_fragments']
     ms = []
     for k in range(1, n + 1):
         ms.extend(itertools.combinations_with_replacement(range(len(LETTERS)), k))
     G = 8
-    return [ms[i:i + G] for i in range(0, len(ms), G)]
+    out = [ms[i:i + G] for i in range(0, len(ms), G)]
+    # extension space: (class, multiset) in groups; one class per shard so that consecutive cases of a process mix configurations of one class
+    for cls in EXT:
+        ems = [('ext', cls, m) for m in ext_multisets(cls, n)]
+        GE = 6
+        out.extend(ems[i:i + GE] for i in range(0, len(ems), GE))
+    # deep same-site slice: all sequences of exactly m fragments, sharded by the first two letters
+    m = bounds(tier)['deep_same_site']['fragments']
+    for a in DEEP:
+        for b in DEEP:
+            out.append([('deep', a, b, m)])
+    return out
 
 
 def true_structure(word):
     t = {}
     for li in word:
-        key, umi, variant = LETTERS[li]
+        key, umi, variant = ALL[li]
         t[(key, umi)] = t.get((key, umi), 0) + 1
     return t
 
 
+def run_ext(item, tier, acc):
+    _, cls, ms = item
+    for word in orders(ms):
+        n = len(word)
+        has_rejected = any(is_rejected(li, cls) for li in word)
+        tag = '+'.join(sorted({ALL[li][2] if ALL[li][2] != 'base' else ALL[li][0] + ALL[li][1] for li in word if li >= NB or cls == 'nla_al'}))
+        for yi in ((False, True) if has_rejected else (False,)):
+            for d, cap, pooling in itertools.product((0, 1, 2), (None, 1), (0, 1)):
+                case = {'word': list(word), 'cls': cls, 'd': d, 'cap': cap, 'pooling': pooling, 'dup_pattern': 0, 'second_pass': True,
+                        'yield_invalid': yi}
+                viols, info = check_word(word, cls, d, cap, pooling, 0, second_pass=True, yield_invalid=yi)
+                acc.case(case, transitions=2 * n, nontrivial=n >= 2,
+                         outcome=f"ext:{cls}:{tag}:yi{int(yi)}:d{d}:mols={info.get('molecules')}/{n}")
+                acc.count('ext:cases')
+                for li in set(word):
+                    if li >= NB:
+                        acc.count(f'ext:cases-with-letter:{"/".join(ALL[li])}')
+                if yi:
+                    acc.count('ext:cases-yield_invalid-with-rejected-fragment')
+                for sig, det in viols:
+                    acc.violation(sig, case, det)
+        yi = has_rejected        # the tagger yields rejected fragments; flags of fragments that are never emitted are not judged
+        for pat in range(1, 1 << n):
+            case = {'word': list(word), 'cls': cls, 'd': 1, 'cap': None, 'pooling': 1, 'dup_pattern': pat, 'second_pass': True,
+                    'yield_invalid': yi, 'stale': True}
+            viols, info = check_word(word, cls, 1, None, 1, pat, second_pass=True, yield_invalid=yi, stale=True)
+            acc.case(case, transitions=2 * n, nontrivial=n >= 2, outcome=f'ext:{cls}:flagpattern:mols={info.get("molecules")}/{n}')
+            acc.count('ext:cases-flagged-input-with-stale-RC-af-TF')
+            for sig, det in viols:
+                acc.violation(sig, case, det)
+
+
+def run_deep(item, tier, acc):
+    _, a, b, m = item
+    for rest in itertools.product(DEEP, repeat=m - 2):
+        word = (a, b) + rest
+        for cls in CLASSES:
+            for d, pooling in itertools.product((1, 2), (0, 1)):
+                case = {'word': list(word), 'cls': cls, 'd': d, 'cap': None, 'pooling': pooling, 'dup_pattern': 0, 'second_pass': True}
+                viols, info = check_word(word, cls, d, None, pooling, 0, second_pass=True)
+                acc.case(case, transitions=2 * m, nontrivial=bool(info.get('rep_changed')),
+                         outcome=f"deep:{cls}:d{d}:rep-changed={info.get('rep_changed')}:mols={info.get('molecules')}/{m}")
+                acc.count('deep:cases')
+                if info.get('rep_changed'):
+                    acc.count('deep:cases-where-a-representative-umi-moved')
+                for sig, det in viols:
+                    acc.violation(sig, case, det)
+
+
 def run_shard(shard, tier, acc):
     for ms in shard:
+        if ms and ms[0] == 'ext':
+            run_ext(ms, tier, acc)
+            continue
+        if ms and ms[0] == 'deep':
+            run_deep(ms, tier, acc)
+            continue
         for word in orders(ms):
             n = len(word)
             ts = true_structure(word)
@@ -343,4 +584,4 @@ def run_shard(shard, tier, acc):
 
 def replay(case):
     return check_word(tuple(case['word']), case['cls'], case['d'], case['cap'], case['pooling'], case['dup_pattern'],
-                      case['second_pass'])[0]
+                      case['second_pass'], bool(case.get('yield_invalid', False)), bool(case.get('stale', False)))[0]
